@@ -69,19 +69,23 @@ type envState struct {
 	b64         map[string]b64Token
 	jwt         *jwtShape
 	cronEntries int
+	pointHits   map[string]int
+	crashWindow int
+	acked       bool
 }
 
 func newEnvState() *envState {
 	return &envState{
-		disks:    map[string]*kvDisk{},
-		files:    map[string]value{},
-		dirs:     map[string]bool{},
-		now:      int64(1_700_000_000_000_000_000),
-		mutexes:  map[*value]*mutexState{},
-		wgs:      map[*value]*wgState{},
-		onces:    map[*value]bool{},
-		syncMaps: map[*value]*omap{},
-		envVars:  map[string]string{},
+		disks:     map[string]*kvDisk{},
+		files:     map[string]value{},
+		dirs:      map[string]bool{},
+		now:       int64(1_700_000_000_000_000_000),
+		mutexes:   map[*value]*mutexState{},
+		wgs:       map[*value]*wgState{},
+		onces:     map[*value]bool{},
+		syncMaps:  map[*value]*omap{},
+		envVars:   map[string]string{},
+		pointHits: map[string]int{},
 	}
 }
 
